@@ -58,11 +58,25 @@ impl PseudoArgData {
 
         Ok(PseudoArgData {
             blob: blob.map(|str| parse_args_blob(str).map(|s| sp!(str.span => s))).transpose()?,
-            param_mask: param_mask.map(|x| sp!(x.span => x.value as _)),
-            pop: pop.map(|x| sp!(x.span => x.value as _)),
-            extra_arg: extra_arg.map(|x| sp!(x.span => x.value as _)),
-            arg_count: arg_count.map(|x| sp!(x.span => x.value as _)),
+            param_mask: param_mask.map(|x| check_fits(x, 16)).transpose()?.map(|x| sp!(x.span => x.value as _)),
+            pop: pop.map(|x| check_fits(x, 8)).transpose()?.map(|x| sp!(x.span => x.value as _)),
+            extra_arg: extra_arg.map(|x| check_fits(x, 16)).transpose()?.map(|x| sp!(x.span => x.value as _)),
+            arg_count: arg_count.map(|x| check_fits(x, 8)).transpose()?.map(|x| sp!(x.span => x.value as _)),
         })
+    }
+}
+
+/// Check that an integer fits in a field of this many bits (under either a signed or unsigned reading),
+/// so that storing it does not silently change its value.
+fn check_fits(value: Sp<i32>, bits: u32) -> Result<Sp<i32>, Diagnostic> {
+    let (min, max) = (-(1_i64 << (bits - 1)), (1_i64 << bits) - 1);
+    if (min..=max).contains(&(value.value as i64)) {
+        Ok(value)
+    } else {
+        Err(error!(
+            message("pseudo-arg value out of range"),
+            primary(value, "{} does not fit in {bits} bits", value.value),
+        ))
     }
 }
 
